@@ -85,6 +85,11 @@ class Geom(object):
             del o["max-line-length"]
             o["line-numbers-left-format"] = "{nm:^4}\uff5c"
             o["line-numbers-right-format"] = "{np:^4}\uff5c"
+        if self.mll == "wide-gutter-plain":
+            # ... and as the whole gutter: a format string without placeholder
+            del o["max-line-length"]
+            o["line-numbers-left-format"] = "\uff5c"
+            o["line-numbers-right-format"] = "\uff5c"
         return o
 
 
@@ -350,6 +355,40 @@ def geometries(tier):
     return [g for g in gs if (g.W // 2 - 6 - (1 if g.markers else 0)) >= 3]
 
 
+def run_plain_gutter(task):
+    """a gutter that is a format string without placeholder (no numbers, so the row model above does not apply): with
+    unlimited wrapping nothing of a long line may be cut off - joining the rows' text gives the line back, no
+    truncation mark - whatever the width of the gutter text in columns (`|`, a full-width bar, two characters)"""
+    _ = task
+    drv = explore.get_driver()
+    viols = []
+    n = 0
+    line = "".join("w%02d " % i for i in range(30)).strip()
+    data = ("diff --git a/f b/f\n--- a/f\n+++ b/f\n@@ -1 +1 @@\n-x\n+" + line + "\n").encode()
+    for gutter in ("|", "\uff5c", "::", "\uff5c\uff5c"):
+        for W in (30, 31, 40, 41, 57):
+            o = base_opts({"side-by-side": True, "width": str(W), "wrap-max-lines": "unlimited",
+                           "line-numbers-left-format": gutter, "line-numbers-right-format": gutter})
+            args = build_args(o)
+            cid = drv.mkconfig(args)
+            r = drv.render1(cid, data)
+            drv.drop(cid)
+            n += 1
+            if r.panic:
+                continue
+            text = "".join(row.text for row in term.decode(r.out))
+            joined = "".join(ch for ch in text if ch.isalnum())
+            want = "".join(ch for ch in line if ch.isalnum())
+            if ("\u2192" in text or want not in joined) and not viols:
+                v = explore.Violation("sbs:plain-gutter-loses-text", "gutter %r, width %d, unlimited wrapping: the rows do not "
+                                      "give the line back (truncation mark: %s)" % (gutter, W, "\u2192" in text),
+                                      data.split(b"\n")[:-1])
+                v.args = args
+                v.config_label = "plain-gutter=%r,W=%d" % (gutter, W)
+                viols.append(v)
+    return {"n": n, "violations": viols}
+
+
 ASSUMPTIONS = [
     "cells: 'a', wide '漢', 'e'+U+0301, tab (tabs=3); display width from the checker's own table "
     "(East Asian W/F = 2, Mn/Me/Cf = 0), on which it agrees with delta for these characters "
@@ -405,6 +444,10 @@ def main(tier):
         if v.klass not in best or v.extra["len"] < best[v.klass].extra["len"]:
             best[v.klass] = v
     viols = sorted(best.values(), key=lambda v: v.klass)
+    pres = explore.pmap(run_plain_gutter, [None])
+    for r in pres:
+        n += r["n"]
+        viols.extend(r["violations"])
     if not n:
         raise MachineryError("nothing evaluated")
     cov = {
